@@ -161,7 +161,8 @@ class SyncedList(SyncedCollection, MutableSequence):
                     self._data[i] = self._from_base(data[i], parent=self)
 
                 if len(self._data) > len(data):
-                    self._data = self._data[: len(data)]
+                    # Truncate in place (see clear()).
+                    del self._data[len(data) :]
                 else:
                     new_data = data[len(self) :]
                     if not _validate:
@@ -255,7 +256,9 @@ class SyncedList(SyncedCollection, MutableSequence):
             with self._load_and_save:
                 self._data.clear()
             return
-        self._data = []
+        # Clear in place: buffered collections may share the container with the
+        # buffer, and rebinding the attribute would silently disconnect them.
+        self._data.clear()
         with self._thread_lock:
             self._save()
 
